@@ -149,7 +149,7 @@ ENTRY = dict(
         "not a failure (races are schedule dependent)."),
     rule=("per case (own child process, seeded): kind in {prog x5, ebg, bnd, catch, dobj, loc} per 10 cases; prog = generated "
           "block program (tasks of the nine kinds, seq, xor, par, incl, loop, sub, conditional flows leaving an activity; "
-          "up to ~14 nodes) answered in batches of 1..3 pending requests at once, each request by 1..2 goroutines racing to "
+          "up to ~14 nodes) answered in batches of 1..3 pending requests at once, each request by 1..3 goroutines racing to "
           "Do it; around every batch a burst of 2..4 locator readers (GetVariable, CloneVariables, CloneItems of the three "
           "containers, FindIItemAwareLocator), one SetVariable writer, 1..2 subscribe/unsubscribe goroutines, 0..2 deliveries of "
           "an unrelated signal, and 2..4 WaitUntilComplete callers for the whole run; schedule perturbation level 0/1/2; ebg / "
